@@ -26,8 +26,8 @@ func init() {
 			{Name: "relay-drop-size-check", File: "serf/query.go", Func: "func (s *Serf) relayResponse(", Old: "if len(raw) > s.config.QueryResponseSizeLimit {", New: "if len(raw) > s.config.QueryResponseSizeLimit && relayFactor > 200 {", Expect: "R3"},
 			{Name: "create-accepts-large-limit", File: "serf/serf.go", Func: "func Create(", Old: "if conf.UserEventSizeLimit > UserEventSizeLimit {", New: "if conf.UserEventSizeLimit > UserEventSizeLimit*2 {", Expect: "R4"},
 			{Name: "equiv-userevent-nested", File: "serf/serf.go", Func: "func (s *Serf) UserEvent(", Equivalent: true,
-				Old: "\ts.eventClock.Increment()\n\n\t// Process update locally\n\ts.handleUserEvent(&msg)\n\n\ts.eventBroadcasts.QueueBroadcast(&broadcast{\n\t\tmsg: raw,\n\t})\n\treturn nil",
-				New: "\tif n := len(raw); n <= UserEventSizeLimit {\n\t\ts.eventClock.Increment()\n\t\ts.handleUserEvent(&msg)\n\t\ts.eventBroadcasts.QueueBroadcast(&broadcast{\n\t\t\tmsg: raw,\n\t\t})\n\t}\n\treturn nil"},
+				Old: "\t// Process update locally\n\ts.handleUserEvent(&msg)\n\n\ts.eventBroadcasts.QueueBroadcast(&broadcast{\n\t\tmsg: raw,\n\t})\n\treturn nil",
+				New: "\tif n := len(raw); n <= UserEventSizeLimit {\n\t\ts.handleUserEvent(&msg)\n\t\ts.eventBroadcasts.QueueBroadcast(&broadcast{\n\t\t\tmsg: raw,\n\t\t})\n\t}\n\treturn nil"},
 		},
 	})
 }
